@@ -1265,7 +1265,11 @@ def less_travelled_cases(ctx, rng, shared):
         loaded = load_table(first)
         tg = ("second-write", "source:%s" % ("hdf5" if i % 2 == 0 else "json"))
         written_json_case(ctx, spec, "live", tags=tg, path=shared, t=loaded, fvs=(None,))
-        written_h5_case(ctx, spec, "live", rng.choice([True, False, 1, 0, np.True_, np.False_]), shared, tags=tg,
+        # nested metadata is outside what the HDF5 writer takes (per-category homogeneous values): the
+        # JSON-sourced table is written to HDF5 without its nested category
+        flat = copy.deepcopy(spec)
+        flat["smd"] = [{"grp": e["grp"]} for e in spec["smd"]]
+        written_h5_case(ctx, flat, "live", rng.choice([True, False, 1, 0, np.True_, np.False_]), shared, tags=tg,
                         t=load_table(first) if i % 2 == 0 else None, fvs=(None, "2.1.0"),
                         route_override=rng.choice(core.ROUTES))
     # command-line front ends as writers
@@ -1471,7 +1475,7 @@ def _run(ctx):
 
     # ---- JSON fault enumeration
     n_bases = 5 if quick else 6
-    n_double = 600 if quick else None
+    n_double = 450 if quick else None
     bases = []
     for b in range(n_bases):
         dens = [0.6, 1.0, 0.3, 0.0, 0.8][b % 5]
@@ -1519,7 +1523,7 @@ def _run(ctx):
     # ---- HDF5: written files valid; fault enumeration
     base_path = os.path.join(TMP, F_BASE_H5)
     n_hb = 3 if quick else 4
-    n_hdouble = 150 if quick else None
+    n_hdouble = 120 if quick else None
     hbases = []
     for b in range(n_hb):
         while True:
